@@ -58,6 +58,14 @@ def scenario(transport, framing, ka, T, R, script, connect=(), nreq=1, family=No
     return sc
 
 
+def scenario_then_silent(transport, framing, ka, T, R, script):
+    """request 1 under `script`, request 2 against a silent peer (scripts keyed by register)."""
+    return {"transport": transport, "framing": framing, "keep_alive": ka, "T": T, "R": R,
+            "by_reg": {100: [expand(s, T) for s in script], 101: []}, "after": "drop", "fullscript": list(script),
+            "then_silent": True, "send_faults": {}, "connect": [],
+            "tasks": [{"start": 0.0, "steps": [["read", 100, 2], ["read", 101, 2]]}]}
+
+
 def _strip_tx(sc, data: bytes):
     return data[2:] if sc["framing"] == "tcp" else data
 
@@ -104,6 +112,8 @@ def check_run(sc, run, part: Part = None):
         silent = all(s == "drop" for s in full[:R + 1]) and len(full) >= R + 1 and \
             all(c == "ok" or (isinstance(c, (list, tuple)) and c[0] == "ok") for c in sc.get("connect", [])) and \
             len(run.calls) == 1 and not sc.get("send_faults")
+        if sc.get("then_silent"):
+            silent = rec["step"][1] == 101
         if silent:
             want = [round(rec["t0"] + k * T, 9) for k in range(R + 1)]
             got = [e[0] for e in txs]
@@ -175,6 +185,11 @@ def plan(tier, seed):
             for T, R in ((0.25, 1), (3, 1), (2.5, 0)) if tier == "quick" else ((0.25, 2), (3, 2), (2.5, 1), (0.1, 1)):
                 specs.append({"mode": "exhaustive", "transport": transport, "framing": framing, "ka": ka, "T": T,
                               "R": R, "chunk": 0, "chunks": 1})
+    # a silent request AFTER a request that went through any fault script (the budget must be whole again)
+    for transport, framing in (("udp", "rtu"), ("tcp", "tcp")):
+        for ka in (False, True):
+            for R in ((1, 2) if tier == "quick" else (1, 2, 3)):
+                specs.append({"mode": "then_silent", "transport": transport, "framing": framing, "ka": ka, "T": 1, "R": R})
     # AA55 framing over UDP (ES family commands)
     for ka in (False, True):
         specs.append({"mode": "exhaustive", "transport": "udp", "framing": "aa55", "ka": ka, "T": 1,
@@ -200,6 +215,14 @@ def run_shard(spec):
                 continue
             sc = scenario(spec["transport"], spec["framing"], spec["ka"], spec["T"], spec["R"], list(script))
             run_case(sc, part)
+    elif mode == "then_silent":
+        # (no symbol that can deliver something AFTER request 1 has ended: without a correlation id a late or
+        #  duplicated answer is legitimately taken as the answer to request 2, which is then not silent)
+        alpha = [s for s in ALPHA if s not in ("senderr", "late", "dup")]
+        R = spec["R"]
+        for d in range(1, min(R + 1, 3) + 1):
+            for script in itertools.product(alpha, repeat=d):
+                run_case(scenario_then_silent(spec["transport"], spec["framing"], spec["ka"], spec["T"], R, list(script)), part)
     elif mode == "connect":
         for R in (0, 1, 2, 3):
             for depth in range(1, spec["depth"] + 1):
